@@ -206,7 +206,13 @@ var encMethods = []string{"Size", "MarshalBebopTo", "MarshalBebop", "EncodeBebop
 // C02: all encoders emit the same bytes and Size() is their exact length.
 func checkC02(r *Run) error {
 	err := r.genVerify(nonMap, r.optsFor(false), encMethods, nil)
-	r.Explanation = "For every record of the schema basis: Size() returns the schema-derived size; MarshalBebopTo returns it, advances the ghost high-water mark by exactly it, its ghost trace is the reference encoding whatever the buffer held before, and its frame is buf[0:size] (nothing outside the first Size() bytes is written); MarshalBebop returns a fresh buffer of that length holding the same trace. Proved per function, for all values, over go/ssa with loop invariants derived from the schema description."
+	if err == nil {
+		// the writers the three encoders rest on (byte-slice and stream): that both families lay out every token the
+		// same way is part of "all encoders emit the same bytes" (seeded change C02-d sat in WriteGUIDBytes alone)
+		err = r.verifyIohelp(func(k string) bool { return strings.Contains(k, ".Write") || strings.Contains(k, "ErrorWriter") })
+		r.byteTheory = false
+	}
+	r.Explanation = "For every record of the schema basis: Size() returns the schema-derived size; MarshalBebopTo returns it, advances the ghost high-water mark by exactly it, its ghost trace is the reference encoding whatever the buffer held before, and its frame is buf[0:size] (nothing outside the first Size() bytes is written); MarshalBebop returns a fresh buffer of that length holding the same trace. The iohelp writers both encoder families call (Write*Bytes into a buffer, Write* to the sticky-error writer) are verified against one byte-level token contract each, so the byte-slice and the stream encoders agree token by token. Proved per function, for all values, over go/ssa with loop invariants derived from the schema description."
 	r.Coverage["not_covered"] = "map-typed fields"
 	return err
 }
